@@ -3,7 +3,7 @@
     checker ([prop_event], i.e. [prop_case] minus the SQLite verdicts, which are observations
     about the real database and not derivable from the model). *)
 From V.Lib Require Import Base.
-From V.C18 Require Import Model Spec Corr Wf ProofsDead ProofsKernel ProofsLife ProofsDrive ProofsSeq ProofsStrand.
+From V.C18 Require Import Model Spec Corr Wf ProofsDead ProofsKernel ProofsLife ProofsDrive ProofsRebuild ProofsSeq ProofsStrand.
 From Coq Require Import ZifyBool.
 Local Open Scope Z_scope.
 
@@ -71,11 +71,19 @@ Proof.
   - apply Z.eqb_eq in H. congruence.
 Qed.
 
+Lemma rres_eq : forall ra rb, output_eqb (ORebuild ra) (ORebuild rb) = true -> ra = rb.
+Proof.
+  intros ra rb H. simpl in H. destruct ra as [|e|], rb as [|e0|]; try discriminate; try reflexivity.
+  destruct e, e0; try discriminate; reflexivity.
+Qed.
+
 Lemma output_eqb_eq : forall a b, output_eqb a b = true -> a = b.
 Proof.
-  intros [] []; simpl; intros H; try discriminate; try reflexivity.
-  - apply Bool.eqb_prop in H. congruence.
-  - apply andb_true_iff in H. destruct H as [H1 H2]. apply step_eqb_eq in H1. apply Bool.eqb_prop in H2. congruence.
+  intros a b H. destruct a as [|x|st p|ra|], b as [|y|st' p'|rb|]; try (simpl in H; discriminate); try reflexivity;
+    try (destruct ra as [|[]|]; simpl in H; discriminate).
+  - simpl in H. apply Bool.eqb_prop in H. congruence.
+  - simpl in H. apply andb_true_iff in H. destruct H as [H1 H2]. apply step_eqb_eq in H1. apply Bool.eqb_prop in H2. congruence.
+  - f_equal. apply rres_eq. exact H.
 Qed.
 
 (* ---------------------------------------------------------------------------------------- *)
@@ -169,7 +177,7 @@ Qed.
 (* ---------------------------------------------------------------------------------------- *)
 (** the model's reaction to every event satisfies the checker *)
 
-Definition gevent_of (ev : event) : option gevent :=
+Definition gevent_of (s : mstate) (ev : event) : option gevent :=
   match ev with
   | ENoop => None
   | EStoreProof id => Some (GStoreProof id)
@@ -181,17 +189,45 @@ Definition gevent_of (ev : event) : option gevent :=
   | ERollback h => Some (GRollback h)
   | EReportFailure id tip => Some (GReportFailure id tip)
   | ERecordSat sc est dets => Some (GRecordSat (mk_targets sc est) dets)
+  | ERebuild id tip g c e sched anchor txid =>
+    Some (GRebuild id (sat_add tip 1) g c e (sched - chain_base s (sat_add tip 1)) anchor txid)
   | ECancel => Some GCancel
   | ESupersede => Some GSupersede
   | ERecompute => Some GRecompute
   end.
 
 Lemma model_event_gstep : forall s ev s' o, model_event s ev = Some (s', o) ->
-  match gevent_of ev with Some g => gstep s g = Some s' | None => s' = s end.
+  match gevent_of s ev with Some g => gstep s g = Some s' | None => s' = s end.
 Proof.
   intros s ev s' o H. destruct ev; cbn [model_event gevent_of gstep] in *; try (inversion H; subst; reflexivity).
   - destruct (apply_signature s id) as [s1 b] eqn:E. inversion H; subst. reflexivity.
   - destruct (advance _ _ _ _ _) as [st s1 d|]; [inversion H; subst; reflexivity | discriminate].
+  - destruct (crypto_ok && _); [discriminate|].
+    destruct (rebuild s id (sat_add tip 1) grid_ok crypto_ok external (sched - chain_base s (sat_add tip 1)) anchor txid) as [s1 r] eqn:E.
+    inversion H; subst. reflexivity.
+Qed.
+
+Lemma rebuild_exact' : forall s id target grid_ok crypto_ok external delay anchor txid,
+  (crypto_ok = true -> 0 <= delay) -> target <= U32MAX ->
+  Forall2 (rebuilt_rel id target) (m_txs s)
+          (m_txs (fst (rebuild s id target grid_ok crypto_ok external delay anchor txid))).
+Proof.
+  intros s id target grid_ok crypto_ok external delay anchor txid D T. destruct crypto_ok.
+  - apply rebuild_exact; [apply D; reflexivity | exact T].
+  - unfold rebuild. destruct (rebuild_guard _ _ _ _); simpl; induction (m_txs s); constructor; try assumption; left; reflexivity.
+Qed.
+
+Lemma rebuild_b_ok : forall id target x y, Forall2 (rebuilt_rel id target) x y -> rebuild_exact_b id target x y = true.
+Proof.
+  intros id target x y H. unfold rebuild_exact_b. induction H as [|a b l l' R _ IH]; simpl; [reflexivity|].
+  rewrite IH, andb_true_r. destruct R as [->|[E1 [E2 [U [X [K [N [Kd [Dp [St [Sc NX]]]]]]]]]]].
+  - rewrite (proj2 (mtx_eqb_eq b b) eq_refl). reflexivity.
+  - apply orb_true_iff. right.
+    rewrite E1, E2, Z.eqb_refl, (proj2 (sp_unmined_spec a) U), (proj2 (sp_expired_spec a target) X), K, N, Kd, Dp.
+    rewrite (proj2 (kind_eqb_eq _ _) eq_refl), (proj2 (list_eqb_spec Z.eqb Z.eqb_eq _ _) eq_refl). simpl.
+    assert (NXb : sp_expired b target = false).
+    { destruct (sp_expired b target) eqn:Q; [|reflexivity]. apply sp_expired_spec in Q. contradiction. }
+    rewrite NXb. destruct St as [-> | ->]; simpl; lia.
 Qed.
 
 Lemma terminal_sticky_b_ok : forall s g s', gstep s g = Some s' ->
@@ -222,7 +258,7 @@ Theorem bridge_event : forall pre ev post out,
 Proof.
   intros pre ev post out H. destruct (model_event pre ev) as [[s' o]|] eqn:M; [|contradiction].
   destruct H as [-> ->]. pose proof (model_event_gstep _ _ _ _ M) as G.
-  unfold prop_event. destruct (gevent_of ev) as [g|] eqn:GE.
+  unfold prop_event. destruct (gevent_of pre ev) as [g|] eqn:GE.
   2:{ destruct ev; try discriminate. subst. simpl. rewrite (monotone_b_ok _ _ (monotone_refl _)).
       unfold terminal_sticky_b. destruct (is_terminal_status _); [rewrite (proj2 (status_eqb_eq _ _) eq_refl)|]; reflexivity. }
   pose proof (step_lifecycle _ _ _ G) as L. pose proof (terminal_sticky_b_ok _ _ _ G) as T.
@@ -251,6 +287,14 @@ Proof.
       * destruct (stranded_b post (mk_targets scanned est)) eqn:S; [|reflexivity]. apply stranded_b_ok in S.
         destruct (advance_stranded_surfaces _ _ ND _ _ _ _ _ _ A S) as [->|[->|[id ->]]]; reflexivity.
   - (* rollback *) rewrite (rollback_b_ok _ _ _ L), T. simpl in M. inversion M; subst. reflexivity.
+  - (* rebuild *)
+    cbn [model_event] in M. destruct (crypto_ok && _) eqn:CO; [discriminate|].
+    simpl in G. inversion G as [G'].
+    assert (D : crypto_ok = true -> 0 <= sched - chain_base pre (sat_add tip 1))
+      by (intros ->; simpl in CO; apply orb_false_iff in CO; lia).
+    assert (TM : sat_add tip 1 <= U32MAX) by (unfold sat_add; lia).
+    pose proof (rebuild_b_ok _ _ _ _ (rebuild_exact' pre id (sat_add tip 1) grid_ok crypto_ok external _ anchor txid D TM)) as RB.
+    rewrite G' in RB. rewrite G', RB, T. reflexivity.
 Qed.
 
 (** [run_case] is the premise of [bridge_event] *)
@@ -259,5 +303,6 @@ Theorem bridge : forall pre ev post out p,
 Proof.
   intros pre ev post out p H. apply bridge_event. unfold run_case in H.
   destruct (model_event pre ev) as [[s' o]|]; [|discriminate].
-  apply andb_true_iff in H. destruct H as [H1 H2]. split; [apply mstate_eqb_eq; exact H1 | apply output_eqb_eq; exact H2].
+  apply andb_true_iff in H. destruct H as [H _]. apply andb_true_iff in H. destruct H as [H1 H2].
+  split; [apply mstate_eqb_eq; exact H1 | apply output_eqb_eq; exact H2].
 Qed.
